@@ -58,7 +58,17 @@ def run_forked(program, schedule):
             os._exit(0)
     os.close(w)
     chunks = []
+    import select
+    import signal
+    import time as _time
+    deadline = _time.time() + float(os.environ.get("VERIF_SCHEDULE_TIMEOUT", "120"))
     while True:
+        ready, _, _ = select.select([r], [], [], max(0.0, deadline - _time.time()))
+        if not ready:
+            os.kill(pid, signal.SIGKILL)
+            os.waitpid(pid, 0)
+            os.close(r)
+            return {"timeout": True}
         c = os.read(r, 65536)
         if not c:
             break
@@ -118,6 +128,13 @@ def run_case(case, ctx):
     order_differs = case["schedules"][0] != case["schedules"][1]
     for si, sched in enumerate(case["schedules"]):
         res = run_forked(program, sched)
+        if "timeout" in res:
+            dump = os.environ.get("VERIF_HANG_DUMP")
+            if dump:
+                with open(dump, "a", encoding="utf-8") as fh:
+                    fh.write(json.dumps({"program": program, "schedule": sched}) + "\n")
+            ctx.viol("schedule/hang", f"schedule {si} did not finish within the time limit in its fresh process")
+            return
         if "error" in res:
             ctx.viol("schedule/declaration_failed", f"schedule {si}: a valid declaration failed in the fresh process: "
                      f"{res['error']}")
